@@ -108,7 +108,15 @@ impl WhereClauseBuilder {
 
     pub fn build(self, f: impl Fn(&Type) -> TokenStream) -> TokenStream {
         let mut ws = Vec::new();
+        // One predicate per distinct field type: a repeated predicate adds nothing, and for a type with its own
+        // binder (`for<'a> fn(&'a T)`) two copies are even ambiguous (E0283).
+        let mut seen = Vec::new();
         for ty in &self.types {
+            let key = quote!(#ty).to_string();
+            if seen.contains(&key) {
+                continue;
+            }
+            seen.push(key);
             ws.push(f(&ref_target(ty)));
         }
         for p in self.preds {
